@@ -11,6 +11,10 @@ package tbtc
 //   TestVerif_C47_Tbtc_Slots       slot cases of SlotCases (every member of the
 //                                  group, all three protocols)
 //   TestVerif_C47_Tbtc_Behaviours  behaviours of Gen_Submission
+//   TestVerif_C47_Tbtc_Validation  behaviours of Gen_Validation: the branches of
+//                                  executeDkgValidation around the approval
+//                                  (validity, challenge loop with its
+//                                  confirmation blocks, scheduling failures)
 //
 // The chain handed to the code is the package's own localChain wrapped so that
 // the calls relevant for the submission (state / nonce pre-checks, validity,
@@ -28,9 +32,9 @@ import (
 	"sync"
 	"testing"
 
+	"github.com/keep-network/keep-core/internal/testutils"
 	kit "github.com/keep-network/keep-core/internal/verifkit"
 	vs "github.com/keep-network/keep-core/internal/verifsub"
-	"github.com/keep-network/keep-core/internal/testutils"
 	"github.com/keep-network/keep-core/pkg/bitcoin"
 	"github.com/keep-network/keep-core/pkg/chain"
 	"github.com/keep-network/keep-core/pkg/internal/tecdsatest"
@@ -502,4 +506,208 @@ func TestVerif_C47_Tbtc_Behaviours(t *testing.T) {
 		}
 	}
 	_ = bitcoin.PublicKeyHash
+}
+
+// ---- executeDkgValidation outside the approval goroutines (specs/Submission/Validation.tla)
+
+type c47ValChain struct {
+	*localChain
+	mu       sync.Mutex
+	verdict  string   // "valid" | "invalid" | "error"
+	sched    string   // "ok" | "operatorErr" | "noMembers" | "paramsErr"
+	chal     []string // responses of ChallengeDKGResult, in order
+	conf     []string // responses of the confirmation (wait + state), in order
+	nchal    int
+	nstate   int
+	waits    []uint64
+	subs     int
+	approves int
+	extra    []string
+	handlers []func(*DKGResultApprovedEvent)
+}
+
+func (c *c47ValChain) IsDKGResultValid(r *DKGChainResult) (bool, error) {
+	switch c.verdict {
+	case "error":
+		return false, fmt.Errorf("verif: injected validity check failure")
+	case "valid":
+		return true, nil
+	}
+	return false, nil
+}
+
+func (c *c47ValChain) ChallengeDKGResult(r *DKGChainResult) error {
+	c.mu.Lock()
+	defer c.mu.Unlock()
+	c.nchal++
+	if len(c.chal) == 0 {
+		c.extra = append(c.extra, "more challenges than the behaviour has")
+		return fmt.Errorf("verif: script exhausted")
+	}
+	f := c.chal[0]
+	c.chal = c.chal[1:]
+	if f == "err" {
+		return fmt.Errorf("verif: injected challenge failure")
+	}
+	return nil
+}
+
+func (c *c47ValChain) waitFn(ctx context.Context, b uint64) error {
+	c.mu.Lock()
+	if c.verdict == "valid" {
+		// approval goroutine: wait until told that somebody approved
+		c.mu.Unlock()
+		<-ctx.Done()
+		return nil
+	}
+	c.waits = append(c.waits, b)
+	f := ""
+	if len(c.conf) > 0 {
+		f = c.conf[0]
+	} else {
+		c.extra = append(c.extra, "more confirmation waits than the behaviour has")
+		f = "waitErr"
+	}
+	if f == "waitErr" && len(c.conf) > 0 {
+		c.conf = c.conf[1:]
+	}
+	c.mu.Unlock()
+	if f == "waitErr" {
+		return fmt.Errorf("verif: injected wait failure")
+	}
+	return nil
+}
+
+func (c *c47ValChain) GetDKGState() (DKGState, error) {
+	c.mu.Lock()
+	defer c.mu.Unlock()
+	c.nstate++
+	if len(c.conf) == 0 {
+		c.extra = append(c.extra, "more state checks than the behaviour has")
+		return Idle, nil
+	}
+	f := c.conf[0]
+	c.conf = c.conf[1:]
+	switch f {
+	case "stateErr":
+		return 0, fmt.Errorf("verif: injected GetDKGState failure")
+	case "challenge":
+		return Challenge, nil
+	}
+	return AwaitingResult, nil
+}
+
+func (c *c47ValChain) DKGParameters() (*DKGParameters, error) {
+	if c.sched == "paramsErr" {
+		return nil, fmt.Errorf("verif: injected DKGParameters failure")
+	}
+	return &DKGParameters{SubmissionTimeoutBlocks: 10, ChallengePeriodBlocks: 4, ApprovePrecedencePeriodBlocks: 2}, nil
+}
+
+func (c *c47ValChain) OnDKGResultApproved(h func(*DKGResultApprovedEvent)) subscription.EventSubscription {
+	c.mu.Lock()
+	c.subs++
+	c.handlers = append(c.handlers, h)
+	c.mu.Unlock()
+	return subscription.NewEventSubscription(func() {})
+}
+
+func (c *c47ValChain) ApproveDKGResult(r *DKGChainResult) error {
+	c.mu.Lock()
+	c.approves++
+	c.mu.Unlock()
+	return nil
+}
+
+func TestVerif_C47_Tbtc_Validation(t *testing.T) {
+	kit.RequireEngine(t)
+	c47Fixtures(t)
+	rep := kit.NewReport("C47", "tbtc_validation")
+	defer rep.Write(t)
+	for bi, b := range kit.LoadCases(t, "validation.ndjson") {
+		steps := b.Get("steps").List()
+		ch := &c47ValChain{localChain: c47Base, sched: "ok"}
+		for _, s := range steps {
+			switch s.Get("a").Str() {
+			case "Validate":
+				ch.verdict, ch.sched = s.Get("v").Str(), s.Get("s").Str()
+			case "Challenge":
+				ch.chal = append(ch.chal, s.Get("v").Str())
+			case "Confirm":
+				ch.conf = append(ch.conf, s.Get("v").Str())
+			}
+		}
+		last := steps[len(steps)-1].Get("st")
+		const n = 3
+		members := make(chain.OperatorIDs, n)
+		for k := range members {
+			members[k] = c47OpID
+			if ch.sched == "noMembers" {
+				members[k] = c47OpID + 77
+			}
+		}
+		de := &dkgExecutor{
+			groupParameters: c47Params(n),
+			operatorIDFn: func() (chain.OperatorID, error) {
+				if ch.sched == "operatorErr" {
+					return 0, fmt.Errorf("verif: injected operator ID failure")
+				}
+				return c47OpID, nil
+			},
+			operatorAddress: c47OpAddr, chain: ch, waitForBlockFn: ch.waitFn,
+		}
+		res := &DKGChainResult{SubmitterMemberIndex: 1, GroupPublicKey: []byte{4, 9}, Members: members}
+		panicked := interface{}(nil)
+		func() {
+			defer func() { panicked = recover() }()
+			de.executeDkgValidation(big.NewInt(1), uint64(b.Get("sub").Int()), res, [32]byte{2})
+		}()
+		key := "validation:" + kit.Hash(b.Get("steps").X)
+		if panicked != nil {
+			rep.Diverge(key, fmt.Sprintf("executeDkgValidation panicked: %v", panicked), b.X, nil, nil)
+			continue
+		}
+		scheduled := last.Get("vpc").Str() == "scheduled"
+		if scheduled {
+			// the approval goroutines subscribe asynchronously
+			vs.Settle(func() bool { ch.mu.Lock(); defer ch.mu.Unlock(); return ch.subs == n })
+		}
+		ch.mu.Lock()
+		obs := map[string]interface{}{"nchal": ch.nchal, "nstate": ch.nstate, "waits": ch.waits, "subscriptions": ch.subs, "extra": ch.extra}
+		wantSubs := 0
+		if scheduled {
+			wantSubs = n
+		}
+		bad := ""
+		switch {
+		case len(ch.extra) > 0:
+			bad = ch.extra[0]
+		case ch.nchal != last.Get("nchal").Int():
+			bad = fmt.Sprintf("%d challenge calls, specification %d", ch.nchal, last.Get("nchal").Int())
+		case fmt.Sprint(ch.waits) != fmt.Sprint(func() []uint64 {
+			w := []uint64{}
+			for _, x := range last.Get("waits").Ints() {
+				w = append(w, uint64(x))
+			}
+			return w
+		}()):
+			bad = fmt.Sprintf("confirmation blocks %v, specification %v", ch.waits, last.Get("waits").Ints())
+		case ch.nstate != last.Get("nstate").Int():
+			bad = fmt.Sprintf("%d DKG state checks, specification %d", ch.nstate, last.Get("nstate").Int())
+		case ch.subs != wantSubs:
+			bad = fmt.Sprintf("%d approval goroutines scheduled, specification %d", ch.subs, wantSubs)
+		case ch.approves != 0:
+			bad = "approved without waiting for a slot"
+		}
+		hs := append([]func(*DKGResultApprovedEvent){}, ch.handlers...)
+		ch.mu.Unlock()
+		for _, h := range hs {
+			h(&DKGResultApprovedEvent{}) // ends the approval goroutines
+		}
+		rep.Eval(key, map[string]interface{}{"behaviour": bi, "steps": len(steps), "observed": obs})
+		rep.Count("validation."+last.Get("vpc").Str()+"."+ch.verdict, 1)
+		if bad != "" {
+			rep.Diverge(key, "executeDkgValidation: "+bad, b.X, last.X, obs)
+		}
+	}
 }
